@@ -139,7 +139,7 @@ pub const SETFL_MASK: i32 = libc::O_APPEND | libc::O_NONBLOCK | libc::O_NOATIME 
 impl HostSide {
     pub fn new(export: &Path) -> Self {
         let c = cstr(export.as_os_str().as_bytes());
-        let fd = unsafe { libc::open(c.as_ptr(), libc::O_PATH | libc::O_NOFOLLOW | libc::O_CLOEXEC) };
+        let fd = hi(unsafe { libc::open(c.as_ptr(), libc::O_PATH | libc::O_NOFOLLOW | libc::O_CLOEXEC) });
         assert!(fd >= 0, "open shadow export");
         let st = fstat(fd).unwrap();
         HostSide { ns: vec![Some(fd)], hs: Vec::new(), root_key: (st.st_dev, st.st_ino), xattr: true, no_open: false, no_opendir: false }
@@ -173,6 +173,7 @@ impl HostSide {
         if fd < 0 {
             return StepRes::err();
         }
+        let fd = hi(fd);
         let st = fstat(fd).unwrap();
         self.ns.push(Some(fd));
         StepRes::ok().with_stat(st)
@@ -181,7 +182,12 @@ impl HostSide {
     /// a transient or permanent re-open of the object behind a reference
     fn reopen(fd: i32, flags: i32) -> i32 {
         let p = proc_path(fd);
-        unsafe { libc::open(p.as_ptr(), (flags & !libc::O_NOFOLLOW & !libc::O_CREAT) | libc::O_CLOEXEC) }
+        let n = unsafe { libc::open(p.as_ptr(), (flags & !libc::O_NOFOLLOW & !libc::O_CREAT) | libc::O_CLOEXEC) };
+        if n < 0 {
+            return n;
+        }
+        // keep errno of a failing open intact (hi() is only reached on success)
+        hi(n)
     }
 
     /// descriptor to do I/O on: the handle, or (no_open) a transient re-open of the node
@@ -300,6 +306,7 @@ impl HostSide {
                 if fd < 0 {
                     return StepRes::err();
                 }
+                let fd = hi(fd);
                 let r = self.lookup_raw(pfd, &name);
                 if r.st != "OK" {
                     unsafe { libc::close(fd) };
